@@ -25,6 +25,13 @@ import Cx.Proofs.Nfa
   the dangling exit `e` patched to `T`.  `compile_sem` (induction on the recursion fuel) shows `FragSem` for every
   automaton that realizes the fragment; the helpers of the compiler take the recursive call as a parameter, so each has
   its own lemma (`compileStar_ok`, `concatLoop_ok`, …) over an arbitrary `f` with `ShapeOK f` / `SemOK h f`.
+
+  `x{m,n}` (`compileRepeatRange`, nested optionals built iteratively): while the second loop runs, the part built so
+  far has two dangling exits — the end `en` of the last copy and the shared `final` epsilon — so its invariant `OptOK`
+  is stated against a continuation: whatever `en` gets connected to (language `R` from there to the target of `final`),
+  the language from the start is `F R`; one more optional copy turns `F` into `F ∘ (x·_ ∨ ε)` (`optNest`), and the
+  last `connect(end, final)` instantiates `R` with ε.  `x{m,}` (m ≥ 1) goes through `compileConcat` with the synthetic
+  `OpPlus` (`compileRepeatMin_eq`).
 -/
 namespace Cx.Compile
 open Cx Cx.Nfa Cx.Regex
@@ -1295,34 +1302,6 @@ theorem MCat_replicate (r : Regex) (h : Bytes) (n i j : Nat) :
   · intro ⟨k, h1, h2⟩; rw [MCat_nil] at h2; cases h2; exact h1
   · intro h1; exact ⟨j, h1, (MCat_nil h j j).mpr rfl⟩
 
-theorem MCat_replicate_quest (r : Regex) (g : Bool) (h : Bytes) : ∀ (d i j : Nat),
-    MCat (List.replicate d (Regex.quest r g)) h i j ↔ ∃ n, n ≤ d ∧ iter (M r h) n i j
-  | 0, i, j => by
-    rw [List.replicate_zero, MCat_nil]
-    constructor
-    · intro hh; exact ⟨0, Nat.le_refl _, hh⟩
-    · intro ⟨n, h1, h2⟩
-      have : n = 0 := by omega
-      subst this; exact h2
-  | d+1, i, j => by
-    rw [List.replicate_succ, MCat_cons]
-    constructor
-    · intro ⟨k, h1, h2⟩
-      obtain ⟨n, h3, h4⟩ := (MCat_replicate_quest r g h d k j).mp h2
-      have h1 : i = k ∨ M r h i k := h1
-      rcases h1 with rfl | h1
-      · exact ⟨n, by omega, h4⟩
-      · exact ⟨n + 1, by omega, k, h1, h4⟩
-    · intro ⟨n, h1, h2⟩
-      cases n with
-      | zero =>
-        have h2 : i = j := h2
-        subst h2
-        exact ⟨i, (Or.inl rfl : i = i ∨ M r h i i), (MCat_replicate_quest r g h d i i).mpr ⟨0, by omega, rfl⟩⟩
-      | succ n =>
-        obtain ⟨k, h3, h4⟩ := h2
-        exact ⟨k, (Or.inr h3 : i = k ∨ M r h i k), (MCat_replicate_quest r g h d k j).mpr ⟨n, by omega, h4⟩⟩
-
 theorem M_rep_none (r : Regex) (mn : Nat) (g : Bool) (h : Bytes) (i j : Nat) :
     M (.rep r mn none g) h i j ↔ ∃ n, mn ≤ n ∧ iter (M r h) n i j := by
   rw [M]; simp [underMax]
@@ -1330,6 +1309,339 @@ theorem M_rep_none (r : Regex) (mn : Nat) (g : Bool) (h : Bytes) (i j : Nat) :
 theorem M_rep_some (r : Regex) (mn mx : Nat) (g : Bool) (h : Bytes) (i j : Nat) :
     M (.rep r mn (some mx) g) h i j ↔ ∃ n, mn ≤ n ∧ n ≤ mx ∧ iter (M r h) n i j := by
   rw [M]; simp [underMax]
+
+theorem M_plus (r : Regex) (g : Bool) (h : Bytes) (i j : Nat) :
+    M (.plus r g) h i j ↔ ∃ n, 1 ≤ n ∧ iter (M r h) n i j := by
+  rw [M]
+
+/-- `compileRepeatMin` for m ≥ 1: m-1 copies and the synthetic `OpPlus` through `compileConcat` (which compiles a
+    single operand directly, as the `len(subs) == 1` shortcut does) -/
+theorem compileRepeatMin_eq (f : Rec) (r : Regex) {mn : Nat} (g : Bool) (b : Builder) (hz : mn ≠ 0) :
+    compileRepeatMin f r mn g b = compileConcat f (List.replicate (mn - 1) r ++ [Regex.plus r g]) b := by
+  unfold compileRepeatMin
+  rw [if_neg hz]
+  by_cases h1 : mn - 1 = 0
+  · rw [h1]; rfl
+  · have : ¬ (List.replicate (mn - 1) r ++ [Regex.plus r g]).length = 1 := by
+      simp only [List.length_append, List.length_replicate, List.length_singleton]; omega
+    simp only [this, if_false]
+
+/-- the language of `d` nested optional copies `(x(x(…)?)?)?` in front of a continuation `R` -/
+def optNest (Mr : Nat → Nat → Prop) : Nat → (Nat → Nat → Prop) → Nat → Nat → Prop
+  | 0, R => R
+  | d+1, R => fun i j => comp Mr (optNest Mr d R) i j ∨ idRel i j
+
+theorem optNest_id (Mr : Nat → Nat → Prop) : ∀ (d i j : Nat), optNest Mr d idRel i j ↔ ∃ n, n ≤ d ∧ iter Mr n i j
+  | 0, i, j => by
+    show idRel i j ↔ _
+    constructor
+    · intro hh; exact ⟨0, Nat.le_refl _, hh⟩
+    · intro ⟨n, h1, h2⟩
+      have : n = 0 := by omega
+      subst this; exact h2
+  | d+1, i, j => by
+    show (comp Mr (optNest Mr d idRel) i j ∨ idRel i j) ↔ _
+    constructor
+    · intro hh
+      rcases hh with ⟨k, h1, h2⟩ | hh
+      · obtain ⟨n, h3, h4⟩ := (optNest_id Mr d k j).mp h2
+        exact ⟨n + 1, by omega, k, h1, h4⟩
+      · exact ⟨0, by omega, hh⟩
+    · intro ⟨n, h1, h2⟩
+      cases n with
+      | zero => exact Or.inr h2
+      | succ n =>
+        obtain ⟨k, h3, h4⟩ := h2
+        exact Or.inl ⟨k, h3, (optNest_id Mr d k j).mpr ⟨n, by omega, h4⟩⟩
+
+/-- `N` carries the states `[lo, hi)` of builder `b`, the exit `e` patched to `X` and the epsilon `fin` to `T` -/
+def Realizes2 (N : NFA) (b : Builder) (lo hi e X fin T : Nat) : Prop :=
+  ∀ q, lo ≤ q → q < hi →
+    N.get q = if q = e then setNext (b.get q) X else if q = fin then setNext (b.get q) T else b.get q
+
+/-- the state of the second loop of `compileRepeatRange`, whatever the size of the builder: entry `st`, the end `en`
+    of the last copy (still dangling) and the shared exit `fin` (an epsilon, still dangling) -/
+structure LoopSh (b0 b : Builder) (st en fin : Nat) : Prop where
+  ext : Ext b0 b
+  tok : TOK b0 → TOK b
+  s_lo : b0.size ≤ st
+  s_hi : st < b.size
+  e_lo : b0.size ≤ en
+  e_hi : en < b.size
+  pat : patchable (b.get en) = true
+  f_lo : b0.size ≤ fin
+  f_hi : fin < b.size
+  f_get : b.get fin = .eps invalid
+  ne : en ≠ fin
+
+/-- semantics of that state: whatever `en` is connected to (`X`, with language `R` from there to the target `T` of
+    `fin`), the part built so far has language `F R` from `st` to `T` -/
+def OptOK (h : Bytes) (b0 b : Builder) (st en fin : Nat) (F : (Nat → Nat → Prop) → Nat → Nat → Prop) : Prop :=
+  b.size ≤ invalid → ∀ N T X R, Realizes2 N b b0.size b.size en X fin T → FragSem N h X T R → FragSem N h st T (F R)
+
+/-- one optional copy: the fragment `(s, e)` compiled in `b`, then its quantifier split at `b1.size` -/
+theorem optCopy_sem {f : Rec} {r : Regex} {g : Bool} {b0 b b1 bN : Builder} {s e fin : Nat}
+    (hf : f r b = some (s, e, b1)) (shr : Shape b b1 s e) (_h0 : b0.size ≤ b.size) (hfl : b0.size ≤ fin) (hfh : fin < b.size)
+    (hsz : bN.size = b1.size + 1)
+    (hget : ∀ q, b.size ≤ q → bN.get q = Builder.get (b1.push (quantSplit g s fin)) q)
+    (hfg : bN.get fin = .eps invalid)
+    {h : Bytes} (hw : AltOK r) (hF : SemOK h f) (hb : bN.size ≤ invalid) {N : NFA} {T X : Nat} {R : Nat → Nat → Prop}
+    (hr : Realizes2 N bN b0.size bN.size e X fin T) (hX : FragSem N h X T R) :
+    N.get fin = .eps T ∧ FragSem N h b1.size T (fun i j => comp (M r h) R i j ∨ idRel i j) := by
+  have g1 := shr.ext.size; have g2 := shr.e_hi; have g3 := shr.e_lo; have g4 := shr.s_lo; have g5 := shr.s_hi
+  have hfin : N.get fin = .eps T := by
+    rw [hr fin hfl (by omega), if_neg (by omega), if_pos rfl, hfg]; rfl
+  obtain ⟨a, c, hq, hac⟩ := quantSplit_cases g s fin
+  have hsplit : N.get b1.size = .split a c := by
+    rw [hr b1.size (by omega) (by omega), if_neg (by omega), if_neg (by omega), hget _ (by omega), get_push_eq]; exact hq
+  have hsub : Realizes N b1 b.size b1.size e X := by
+    intro q q1 q2
+    rw [hr q (by omega) (by omega)]
+    by_cases hqe : q = e
+    · rw [if_pos hqe, if_pos hqe, hget q q1, get_push_lt q2]
+    · rw [if_neg hqe, if_neg hqe, if_neg (by omega), hget q q1, get_push_lt q2]
+  have fsub := hF _ _ _ _ _ hw hf (by omega) N X hsub
+  exact ⟨hfin, fragSem_split_either hsplit hac (fsub.seq hX) (fragSem_eps hfin)⟩
+
+/-- the second loop of `compileRepeatRange` -/
+theorem rangeOptLoop_ok {f : Rec} {r : Regex} {g : Bool} (hS : ShapeOK f) (b0 : Builder) (fin : Nat) :
+    ∀ (d st en : Nat) (b : Builder) (st' en' : Nat) (b' : Builder),
+    rangeOptLoop f r g fin d st en b = some (st', en', b') → LoopSh b0 b st en fin →
+    LoopSh b0 b' st' en' fin ∧ b.size ≤ b'.size ∧
+      ∀ h, AltOK r → SemOK h f → ∀ F, OptOK h b0 b st en fin F →
+        OptOK h b0 b' st' en' fin (fun R => F (optNest (M r h) d R)) := by
+  intro d
+  induction d with
+  | zero =>
+    intro st en b st' en' b' hc sh
+    simp only [rangeOptLoop, Option.some.injEq, Prod.mk.injEq] at hc
+    obtain ⟨rfl, rfl, rfl⟩ := hc
+    exact ⟨sh, Nat.le_refl _, fun h _ _ F inv => inv⟩
+  | succ d ih =>
+    intro st en b st' en' b' hc sh
+    unfold rangeOptLoop at hc
+    cases hf : f r b with
+    | none => simp [hf] at hc
+    | some fr =>
+      obtain ⟨s, e, b1⟩ := fr
+      simp only [hf] at hc
+      have shr := hS _ _ _ _ _ hf
+      have g1 := shr.ext.size; have g2 := shr.e_hi; have g3 := shr.e_lo; have g4 := shr.s_lo; have g5 := shr.s_hi
+      have k1 := sh.ext.size; have k2 := sh.e_hi; have k3 := sh.e_lo; have k4 := sh.s_lo; have k5 := sh.s_hi
+      have k6 := sh.f_lo; have k7 := sh.f_hi; have k8 := sh.ne
+      have hsz2 : (b1.push (quantSplit g s fin)).size = b1.size + 1 := by simp
+      split at hc
+      · -- `start == InvalidState`: the split becomes the start
+        rename_i hst
+        have sh2 : LoopSh b0 (b1.push (quantSplit g s fin)) b1.size e fin :=
+          ⟨(sh.ext.trans shr.ext).trans (Ext.push _ _),
+            fun t => (shr.tok (sh.tok t)).push (tok_quantSplit g (by omega) (by omega)),
+            by omega, by omega, by omega, by omega, by rw [get_push_lt g2]; exact shr.pat, k6, by omega,
+            by rw [get_push_lt (by omega), shr.ext.get fin k7]; exact sh.f_get, by omega⟩
+        obtain ⟨r1, r2, r3⟩ := ih _ _ _ _ _ _ hc sh2
+        refine ⟨r1, by omega, fun h hw hF F _ =>
+          r3 h hw hF (fun R' => F (fun i j => comp (M r h) R' i j ∨ idRel i j)) ?_⟩
+        intro hb
+        exfalso
+        omega
+      · split at hc
+        · cases hc
+        · rename_i hst b3 hp
+          have p := patchOrEps_some (by omega) hp
+          have h6 := p.size
+          have sh3 : LoopSh b0 b3 st e fin :=
+            ⟨((sh.ext.trans shr.ext).trans (Ext.push _ _)).patch p k3,
+              fun t => ((shr.tok (sh.tok t)).push (tok_quantSplit g (by omega) (by omega))).patch p (refOK_lt (by omega)),
+              k4, by omega, by omega, by omega, by rw [p.get_ne (by omega), get_push_lt g2]; exact shr.pat, k6, by omega,
+              by rw [p.get_ne (fun hh => k8 hh.symm), get_push_lt (by omega), shr.ext.get fin k7]; exact sh.f_get, by omega⟩
+          obtain ⟨r1, r2, r3⟩ := ih _ _ _ _ _ _ hc sh3
+          refine ⟨r1, by omega, fun h hw hF F inv =>
+            r3 h hw hF (fun R' => F (fun i j => comp (M r h) R' i j ∨ idRel i j)) ?_⟩
+          intro hb N T X R' hr hX
+          have hfg : b3.get fin = .eps invalid := sh3.f_get
+          obtain ⟨hfin, fsp⟩ := optCopy_sem (g := g) (b0 := b0) hf shr k1 k6 k7 (by omega)
+            (fun q hq => p.get_ne (by omega)) hfg hw hF hb hr hX
+          refine inv (by omega) N T b1.size _ ?_ fsp
+          intro q q1 q2
+          rw [hr q q1 (by omega), if_neg (by omega)]
+          by_cases hqn : q = en
+          · subst hqn
+            rw [if_neg k8, if_pos rfl, p.get_eq, get_push_lt (by omega), shr.ext.get q q2]
+          · rw [if_neg hqn, p.get_ne hqn, get_push_lt (by omega), shr.ext.get q q2]
+
+/-- the second loop, the final epsilon and the last `connect` -/
+theorem rangeTail_ok {f : Rec} {r : Regex} {g : Bool} (hS : ShapeOK f) {b0 b2 b3 b4 : Builder} {fin d st en st' en' : Nat}
+    (hl : rangeOptLoop f r g fin d st en b2 = some (st', en', b3)) (hp : patchOrEps b3 en' fin = some b4)
+    (sh : LoopSh b0 b2 st en fin) :
+    Shape b0 b4 st' fin ∧ ∀ h, AltOK r → SemOK h f → ∀ F, OptOK h b0 b2 st en fin F →
+      FragOK h b0 b4 st' fin (F (optNest (M r h) d idRel)) := by
+  obtain ⟨l1, _, l3⟩ := rangeOptLoop_ok hS b0 fin d st en b2 st' en' b3 hl sh
+  have p := patchOrEps_some l1.e_hi hp
+  have h6 := p.size
+  have k2 := l1.e_hi; have k3 := l1.e_lo; have k4 := l1.s_lo; have k5 := l1.s_hi
+  have k6 := l1.f_lo; have k7 := l1.f_hi; have k8 := l1.ne
+  have hfg : b4.get fin = .eps invalid := by rw [p.get_ne (fun hh => k8 hh.symm)]; exact l1.f_get
+  refine ⟨⟨l1.ext.patch p k3, k4, by omega, k6, by omega, by rw [hfg]; rfl,
+    fun t => (l1.tok t).patch p (refOK_lt k7)⟩, ?_⟩
+  intro h hw hF F inv hb N T hr
+  have hfin : N.get fin = .eps T := by rw [hr.at_e k6 (by omega), hfg]; rfl
+  refine l3 h hw hF F inv (by omega) N T fin idRel ?_ (fragSem_eps hfin)
+  intro q q1 q2
+  rw [hr q q1 (by omega)]
+  by_cases hqn : q = en'
+  · subst hqn
+    rw [if_neg k8, if_pos rfl, p.get_eq]
+  · rw [if_neg hqn, p.get_ne hqn]
+
+/-- the first loop of `compileRepeatRange`, after the first copy -/
+theorem rangeMinLoop_ok {f : Rec} {r : Regex} (hS : ShapeOK f) (b0 : Builder) :
+    ∀ (n st en : Nat) (b : Builder) (st' en' : Nat) (b' : Builder),
+    rangeMinLoop f r n st en b = some (st', en', b') → Shape b0 b st en →
+    Shape b0 b' st' en' ∧ b.size ≤ b'.size ∧
+      ∀ h, AltOK r → SemOK h f → ∀ R, FragOK h b0 b st en R → FragOK h b0 b' st' en' (comp R (iter (M r h) n)) := by
+  intro n
+  induction n with
+  | zero =>
+    intro st en b st' en' b' hc sh
+    simp only [rangeMinLoop, Option.some.injEq, Prod.mk.injEq] at hc
+    obtain ⟨rfl, rfl, rfl⟩ := hc
+    exact ⟨sh, Nat.le_refl _, fun h _ _ R fR => fR.congr fun i j => (comp_idRel_right R i j).symm⟩
+  | succ n ih =>
+    intro st en b st' en' b' hc sh
+    unfold rangeMinLoop at hc
+    cases hf : f r b with
+    | none => simp [hf] at hc
+    | some fr =>
+      obtain ⟨s, e, b1⟩ := fr
+      simp only [hf] at hc
+      have shr := hS _ _ _ _ _ hf
+      have g1 := shr.ext.size; have g2 := shr.e_hi; have g3 := shr.e_lo; have g4 := shr.s_lo; have g5 := shr.s_hi
+      have h1 := sh.ext.size; have h2 := sh.e_hi; have h3 := sh.e_lo; have h4 := sh.s_lo; have h5 := sh.s_hi
+      split at hc
+      · -- `start == InvalidState`
+        rename_i hst
+        have sh2 : Shape b0 b1 s e :=
+          ⟨sh.ext.trans shr.ext, by omega, g5, by omega, g2, shr.pat, fun t => shr.tok (sh.tok t)⟩
+        obtain ⟨r1, r2, r3⟩ := ih _ _ _ _ _ _ hc sh2
+        refine ⟨r1, by omega, fun h hw hF R _ => (r3 h hw hF (comp R (M r h)) ?_).congr fun i j => comp_assoc _ _ _ i j⟩
+        intro hb
+        exfalso
+        omega
+      · split at hc
+        · cases hc
+        · rename_i hst b2 hp
+          have p := patchOrEps_some (by omega) hp
+          have h6 := p.size
+          have sh2 : Shape b0 b2 st e :=
+            ⟨(sh.ext.trans shr.ext).patch p h3, h4, by omega, by omega, by omega, by rw [p.get_ne (by omega)]; exact shr.pat,
+              fun t => (shr.tok (sh.tok t)).patch p (refOK_lt g5)⟩
+          obtain ⟨r1, r2, r3⟩ := ih _ _ _ _ _ _ hc sh2
+          refine ⟨r1, by omega, fun h hw hF R fR => (r3 h hw hF (comp R (M r h)) ?_).congr fun i j => comp_assoc _ _ _ i j⟩
+          intro hb N T hr
+          have hN1 : Realizes N b b0.size b.size en s :=
+            hr.sub (Nat.le_refl _) (by omega) (Or.inr (by omega)) fun q _ hq =>
+              p.get_sub (fun q hq => shr.ext.get q hq) h2 q hq
+          have hN2 : Realizes N b1 b.size b1.size e T := by
+            intro q q1 q2
+            rw [hr q (by omega) (by omega), p.get_ne (by omega)]
+          exact (fR (by omega) N s hN1).seq (hF _ _ _ _ _ hw hf (by omega) N T hN2)
+
+/-- the first loop of `compileRepeatRange`, entered with `start = InvalidState`, at least one copy -/
+theorem rangeMinLoop_fresh {f : Rec} {r : Regex} (hS : ShapeOK f) {n en : Nat} {b : Builder} {st' en' : Nat} {b' : Builder}
+    (hc : rangeMinLoop f r (n + 1) invalid en b = some (st', en', b')) :
+    Shape b b' st' en' ∧ ∀ h, AltOK r → SemOK h f → FragOK h b b' st' en' (iter (M r h) (n + 1)) := by
+  unfold rangeMinLoop at hc
+  cases hf : f r b with
+  | none => simp [hf] at hc
+  | some fr =>
+    obtain ⟨s, e, b1⟩ := fr
+    simp only [hf, if_true] at hc
+    obtain ⟨r1, _, r3⟩ := rangeMinLoop_ok hS b n s e b1 st' en' b' hc (hS _ _ _ _ _ hf)
+    exact ⟨r1, fun h hw hF => (r3 h hw hF (M r h) (hF _ _ _ _ _ hw hf)).congr fun i j => Iff.rfl⟩
+
+/-- `compileRepeatRange` (called with min < max) -/
+theorem compileRepeatRange_ok {f : Rec} {r : Regex} {mn mx : Nat} {g : Bool} {b b' : Builder} {s e : Nat}
+    (hS : ShapeOK f) (hlt : mn < mx) (hc : compileRepeatRange f r mn mx g b = some (s, e, b')) :
+    Shape b b' s e ∧ ∀ h, AltOK r → SemOK h f → FragOK h b b' s e (M (.rep r mn (some mx) g) h) := by
+  unfold compileRepeatRange at hc
+  rw [if_neg (by omega)] at hc
+  cases mn with
+  | zero =>
+    obtain ⟨d, rfl⟩ : ∃ d, mx = d + 1 := ⟨mx - 1, by omega⟩
+    simp only [rangeMinLoop, Nat.sub_zero] at hc
+    unfold rangeOptLoop at hc
+    cases hf : f r (b.push (.eps invalid)) with
+    | none => simp [hf] at hc
+    | some fr =>
+      obtain ⟨s1, e1, b1⟩ := fr
+      simp only [hf, if_true] at hc
+      have shr := hS _ _ _ _ _ hf
+      have g1 := shr.ext.size; have g2 := shr.e_hi; have g3 := shr.e_lo; have g4 := shr.s_lo; have g5 := shr.s_hi
+      have hsz1 : (b.push (NState.eps invalid)).size = b.size + 1 := by simp
+      have hsz2 : (b1.push (quantSplit g s1 b.size)).size = b1.size + 1 := by simp
+      split at hc
+      · cases hc
+      · rename_i st' en' b3 hl
+        split at hc
+        · cases hc
+        · rename_i b4 hp
+          simp only [Option.some.injEq, Prod.mk.injEq] at hc
+          obtain ⟨rfl, rfl, rfl⟩ := hc
+          have hfg : Builder.get (b1.push (quantSplit g s1 b.size)) b.size = .eps invalid := by
+            rw [get_push_lt (by omega), shr.ext.get _ (by omega), get_push_eq]
+          have sh2 : LoopSh b (b1.push (quantSplit g s1 b.size)) b1.size e1 b.size :=
+            ⟨((Ext.push _ _).trans shr.ext).trans (Ext.push _ _),
+              fun t => (shr.tok (t.push (tok_eps _))).push (tok_quantSplit g (by omega) (by omega)),
+              by omega, by omega, by omega, by omega, by rw [get_push_lt g2]; exact shr.pat, Nat.le_refl _, by omega,
+              hfg, by omega⟩
+          obtain ⟨t1, t2⟩ := rangeTail_ok hS hl hp sh2
+          refine ⟨t1, fun h hw hF => (t2 h hw hF (fun R i j => comp (M r h) R i j ∨ idRel i j) ?_).congr fun i j => ?_⟩
+          · intro hb N T X R hr hX
+            exact (optCopy_sem (g := g) (b0 := b) hf shr (by omega) (Nat.le_refl _) (by omega) hsz2 (fun q _ => rfl) hfg
+              hw hF hb hr hX).2
+          · rw [M_rep_some]
+            show optNest (M r h) (d + 1) idRel i j ↔ _
+            rw [optNest_id]
+            exact ⟨fun ⟨n, h1, h2⟩ => ⟨n, Nat.zero_le _, h1, h2⟩, fun ⟨n, _, h1, h2⟩ => ⟨n, h1, h2⟩⟩
+  | succ k =>
+    cases hmin : rangeMinLoop f r (k + 1) invalid invalid b with
+    | none => simp [hmin] at hc
+    | some fr =>
+      obtain ⟨st, en, b1⟩ := fr
+      simp only [hmin] at hc
+      obtain ⟨shm, fmin⟩ := rangeMinLoop_fresh hS hmin
+      have g1 := shm.ext.size; have g2 := shm.e_hi; have g3 := shm.e_lo; have g4 := shm.s_lo; have g5 := shm.s_hi
+      have hsz1 : (b1.push (NState.eps invalid)).size = b1.size + 1 := by simp
+      split at hc
+      · cases hc
+      · rename_i st' en' b3 hl
+        split at hc
+        · cases hc
+        · rename_i b4 hp
+          simp only [Option.some.injEq, Prod.mk.injEq] at hc
+          obtain ⟨rfl, rfl, rfl⟩ := hc
+          have sh2 : LoopSh b (b1.push (.eps invalid)) st en b1.size :=
+            ⟨shm.ext.trans (Ext.push _ _), fun t => (shm.tok t).push (tok_eps _), g4, by omega, g3, by omega,
+              by rw [get_push_lt g2]; exact shm.pat, g1, by omega, get_push_eq _ _, by omega⟩
+          obtain ⟨t1, t2⟩ := rangeTail_ok hS hl hp sh2
+          refine ⟨t1, fun h hw hF => (t2 h hw hF (fun R => comp (iter (M r h) (k + 1)) R) ?_).congr fun i j => ?_⟩
+          · intro hb N T X R hr hX
+            have hN1 : Realizes N b1 b.size b1.size en X := by
+              intro q q1 q2
+              rw [hr q q1 (by omega)]
+              by_cases hqe : q = en
+              · rw [if_pos hqe, if_pos hqe, get_push_lt q2]
+              · rw [if_neg hqe, if_neg hqe, if_neg (by omega), get_push_lt q2]
+            exact (fmin h hw hF (by omega) N X hN1).seq hX
+          · rw [M_rep_some]
+            constructor
+            · intro ⟨c, h1, h2⟩
+              obtain ⟨n, h3, h4⟩ := (optNest_id _ _ c j).mp h2
+              exact ⟨k + 1 + n, by omega, by omega, (iter_add _ (k + 1) n i j).mpr ⟨c, h1, h4⟩⟩
+            · intro ⟨n, h1, h2, h3⟩
+              obtain ⟨d, rfl⟩ : ∃ d, n = k + 1 + d := ⟨n - (k + 1), by omega⟩
+              obtain ⟨c, h4, h5⟩ := (iter_add _ (k + 1) d i j).mp h3
+              exact ⟨c, h4, (optNest_id _ _ c j).mpr ⟨d, by omega, h5⟩⟩
 
 theorem compileRepeat_ok {f : Rec} {r : Regex} {mn : Nat} {mx : Option Nat} {g : Bool} {b b' : Builder} {s e : Nat}
     (hS : ShapeOK f) (hc : compileRepeat f r mn mx g b = some (s, e, b')) :
@@ -1346,32 +1658,37 @@ theorem compileRepeat_ok {f : Rec} {r : Regex} {mn : Nat} {mx : Option Nat} {g :
     | nil => exact h2
     | cons a l ih => exact ⟨h1.1, ih h1.2⟩
   split at hc
-  · -- {mn,}
-    split at hc
-    · rename_i hz
-      subst hz
+  · -- {mn,}: compileRepeatMin
+    by_cases hz : mn = 0
+    · subst hz
+      unfold compileRepeatMin at hc
+      rw [if_pos rfl] at hc
       obtain ⟨r1, r2⟩ := compileStar_ok hS hc
       exact ⟨r1, fun h hw hF => (r2 h hw hF).congr fun i j => by
         rw [M_rep_none]; exact ⟨fun ⟨n, hn⟩ => ⟨n, Nat.zero_le _, hn⟩, fun ⟨n, _, hn⟩ => ⟨n, hn⟩⟩⟩
-    · obtain ⟨r1, r2⟩ := compileConcat_ok hS hc
-      refine ⟨r1, fun h hw hF => (r2 h (happ _ _ (hrep mn hw) ⟨hw, trivial⟩) hF).congr fun i j => ?_⟩
+    · rw [compileRepeatMin_eq f r g b hz] at hc
+      obtain ⟨r1, r2⟩ := compileConcat_ok hS hc
+      refine ⟨r1, fun h hw hF => (r2 h (happ _ _ (hrep (mn - 1) hw) ⟨hw, trivial⟩) hF).congr fun i j => ?_⟩
       rw [M_rep_none, MCat_replicate_append]
       constructor
       · intro ⟨k, h1, h2⟩
         rw [MCat_cons] at h2
-        obtain ⟨k2, ⟨n, hn⟩, h3⟩ := h2
+        obtain ⟨k2, hp, h3⟩ := h2
         rw [MCat_nil] at h3
         have h3 : k2 = j := h3
-        rw [h3] at hn
-        exact ⟨mn + n, by omega, (iter_add _ mn n i j).mpr ⟨k, h1, hn⟩⟩
+        rw [h3, M_plus] at hp
+        obtain ⟨n, hn1, hn⟩ := hp
+        exact ⟨mn - 1 + n, by omega, (iter_add _ (mn - 1) n i j).mpr ⟨k, h1, hn⟩⟩
       · intro ⟨n, h1, h2⟩
-        obtain ⟨d, rfl⟩ : ∃ d, n = mn + d := ⟨n - mn, by omega⟩
-        obtain ⟨k, h3, h4⟩ := (iter_add _ mn d i j).mp h2
-        exact ⟨k, h3, (MCat_cons _ _ h k j).mpr ⟨j, ⟨d, h4⟩, (MCat_nil h j j).mpr rfl⟩⟩
+        obtain ⟨d, rfl⟩ : ∃ d, n = mn - 1 + d := ⟨n - (mn - 1), by omega⟩
+        obtain ⟨k, h3, h4⟩ := (iter_add _ (mn - 1) d i j).mp h2
+        exact ⟨k, h3, (MCat_cons _ _ h k j).mpr ⟨j, (M_plus r g h k j).mpr ⟨d, by omega, h4⟩, (MCat_nil h j j).mpr rfl⟩⟩
   · rename_i mx
     split at hc
-    · rename_i heq
+    · -- {n}: compileRepeatExact
+      rename_i heq
       subst heq
+      unfold compileRepeatExact at hc
       have hiff : ∀ h i j, (∃ n, mn ≤ n ∧ n ≤ mn ∧ iter (M r h) n i j) ↔ iter (M r h) mn i j := by
         intro h i j
         constructor
@@ -1395,26 +1712,14 @@ theorem compileRepeat_ok {f : Rec} {r : Regex} {mn : Nat} {mx : Option Nat} {g :
         · obtain ⟨r1, r2⟩ := compileConcat_ok hS hc
           exact ⟨r1, fun h hw hF => (r2 h (hrep mn hw) hF).congr fun i j => by
             rw [M_rep_some, hiff, MCat_replicate]⟩
-    · split at hc
-      · cases hc
-      · rename_i hne hgt
-        obtain ⟨r1, r2⟩ := compileConcat_ok hS hc
-        refine ⟨r1, fun h hw hF => (r2 h (happ _ _ (hrep mn hw) ?_) hF).congr fun i j => ?_⟩
-        · have : ∀ n, AltOKs (List.replicate n (Regex.quest r g)) := by
-            intro n
-            induction n with
-            | zero => exact trivial
-            | succ n ih => rw [List.replicate_succ]; exact ⟨hw, ih⟩
-          exact this _
-        · rw [M_rep_some, MCat_replicate_append]
-          constructor
-          · intro ⟨k, h1, h2⟩
-            obtain ⟨n, h3, h4⟩ := (MCat_replicate_quest r g h _ k j).mp h2
-            exact ⟨mn + n, by omega, by omega, (iter_add _ mn n i j).mpr ⟨k, h1, h4⟩⟩
-          · intro ⟨n, h1, h2, h3⟩
-            obtain ⟨d, rfl⟩ : ∃ d, n = mn + d := ⟨n - mn, by omega⟩
-            obtain ⟨k, h4, h5⟩ := (iter_add _ mn d i j).mp h3
-            exact ⟨k, h4, (MCat_replicate_quest r g h _ k j).mpr ⟨d, by omega, h5⟩⟩
+    · -- {m,n}: compileRepeatRange
+      rename_i hne
+      by_cases hgt : mn > mx
+      · unfold compileRepeatRange at hc
+        rw [if_pos hgt] at hc
+        cases hc
+      · exact compileRepeatRange_ok hS (by omega) hc
+
 
 /-! ### `compileRegexp` -/
 
@@ -1713,26 +2018,113 @@ theorem compileAlternate_total {f : Rec} {rs : List Regex} (hr : ∀ r, r ∈ rs
     obtain ⟨⟨ss, es, b1⟩, ha⟩ := altSubs_total (r :: r2 :: rs) hr b
     simp only [ha]; exact ⟨_, rfl⟩
 
+theorem rangeMinLoop_total {f : Rec} {r : Regex} (hS : ShapeOK f) (hr : Succeeds f r) : ∀ (n st en : Nat) (b : Builder),
+    en < b.size → patchable (b.get en) = true →
+    ∃ st' en' b', rangeMinLoop f r n st en b = some (st', en', b') ∧ en' < b'.size ∧ patchable (b'.get en') = true := by
+  intro n
+  induction n with
+  | zero => intro st en b he hp; exact ⟨st, en, b, rfl, he, hp⟩
+  | succ n ih =>
+    intro st en b he hp
+    obtain ⟨⟨s, e, b1⟩, hf⟩ := hr b
+    have sh := hS _ _ _ _ _ hf
+    have g1 := sh.ext.size; have g2 := sh.e_hi; have g3 := sh.e_lo
+    unfold rangeMinLoop
+    simp only [hf]
+    split
+    · exact ih s e b1 g2 sh.pat
+    · obtain ⟨b2, hp2⟩ := patchOrEps_of (b := b1) (e := en) s (by omega) (by rw [sh.ext.get en he]; exact hp)
+      have p := patchOrEps_some (by omega) hp2
+      simp only [hp2]
+      exact ih st e b2 (by rw [p.size]; exact g2) (by rw [p.get_ne (by omega)]; exact sh.pat)
+
+theorem rangeMinLoop_total_fresh {f : Rec} {r : Regex} (hS : ShapeOK f) (hr : Succeeds f r) (n en : Nat) (b : Builder) :
+    ∃ st' en' b', rangeMinLoop f r (n + 1) invalid en b = some (st', en', b') ∧ en' < b'.size ∧
+      patchable (b'.get en') = true := by
+  obtain ⟨⟨s, e, b1⟩, hf⟩ := hr b
+  have sh := hS _ _ _ _ _ hf
+  unfold rangeMinLoop
+  simp only [hf, ↓reduceIte]
+  exact rangeMinLoop_total hS hr n s e b1 sh.e_hi sh.pat
+
+theorem rangeOptLoop_total {f : Rec} {r : Regex} {g : Bool} {fin : Nat} (hS : ShapeOK f) (hr : Succeeds f r) :
+    ∀ (d st en : Nat) (b : Builder), en < b.size → patchable (b.get en) = true →
+    ∃ st' en' b', rangeOptLoop f r g fin d st en b = some (st', en', b') ∧ en' < b'.size ∧
+      patchable (b'.get en') = true := by
+  intro d
+  induction d with
+  | zero => intro st en b he hp; exact ⟨st, en, b, rfl, he, hp⟩
+  | succ d ih =>
+    intro st en b he hp
+    obtain ⟨⟨s, e, b1⟩, hf⟩ := hr b
+    have sh := hS _ _ _ _ _ hf
+    have g1 := sh.ext.size; have g2 := sh.e_hi; have g3 := sh.e_lo
+    have hsz2 : (b1.push (quantSplit g s fin)).size = b1.size + 1 := by simp
+    unfold rangeOptLoop
+    simp only [hf]
+    split
+    · exact ih _ e _ (by omega) (by rw [get_push_lt g2]; exact sh.pat)
+    · obtain ⟨b3, hp3⟩ := patchOrEps_of (b := b1.push (quantSplit g s fin)) (e := en) b1.size (by omega)
+        (by rw [get_push_lt (by omega), sh.ext.get en he]; exact hp)
+      have p := patchOrEps_some (by omega) hp3
+      simp only [hp3]
+      exact ih st e b3 (by rw [p.size]; omega) (by rw [p.get_ne (by omega), get_push_lt g2]; exact sh.pat)
+
+theorem rangeOptLoop_total_fresh {f : Rec} {r : Regex} {g : Bool} {fin : Nat} (hS : ShapeOK f) (hr : Succeeds f r)
+    (d en : Nat) (b : Builder) :
+    ∃ st' en' b', rangeOptLoop f r g fin (d + 1) invalid en b = some (st', en', b') ∧ en' < b'.size ∧
+      patchable (b'.get en') = true := by
+  obtain ⟨⟨s, e, b1⟩, hf⟩ := hr b
+  have sh := hS _ _ _ _ _ hf
+  have g2 := sh.e_hi
+  have hsz2 : (b1.push (quantSplit g s fin)).size = b1.size + 1 := by simp
+  unfold rangeOptLoop
+  simp only [hf, ↓reduceIte]
+  exact rangeOptLoop_total hS hr d _ e _ (by omega) (by rw [get_push_lt g2]; exact sh.pat)
+
+theorem compileRepeatRange_total {f : Rec} {r : Regex} {mn mx : Nat} {g : Bool} (hS : ShapeOK f) (hlt : mn < mx)
+    (hr : Succeeds f r) : ∀ b, ∃ fr, compileRepeatRange f r mn mx g b = some fr := by
+  intro b
+  unfold compileRepeatRange
+  rw [if_neg (by omega)]
+  cases mn with
+  | zero =>
+    obtain ⟨d, rfl⟩ : ∃ d, mx = d + 1 := ⟨mx - 1, by omega⟩
+    simp only [rangeMinLoop, Nat.sub_zero]
+    obtain ⟨st', en', b3, hl, h1, h2⟩ := rangeOptLoop_total_fresh (g := g) (fin := b.size) hS hr d invalid (b.push (.eps invalid))
+    obtain ⟨b4, hp⟩ := patchOrEps_of (b := b3) (e := en') b.size h1 h2
+    simp only [hl, hp]
+    exact ⟨_, rfl⟩
+  | succ k =>
+    obtain ⟨st, en, b1, hmin, m1, m2⟩ := rangeMinLoop_total_fresh hS hr k invalid b
+    obtain ⟨st', en', b3, hl, h1, h2⟩ := rangeOptLoop_total (g := g) (fin := b1.size) hS hr (mx - (k + 1)) st en
+      (b1.push (.eps invalid)) (by simp; omega) (by rw [get_push_lt m1]; exact m2)
+    obtain ⟨b4, hp⟩ := patchOrEps_of (b := b3) (e := en') b1.size h1 h2
+    simp only [hmin, hl, hp]
+    exact ⟨_, rfl⟩
+
 theorem compileRepeat_total {f : Rec} {r : Regex} {mn : Nat} {mx : Option Nat} {g : Bool} (hS : ShapeOK f)
     (hle : ∀ m, mx = some m → mn ≤ m)
     (hr : (mx = some 0 → mn ≠ 0) → Succeeds f r)
-    (hstar : mx = none → mn ≠ 0 → Succeeds f (.star r g))
-    (hquest : ∀ m, mx = some m → mn < m → Succeeds f (.quest r g)) :
+    (hplus : mx = none → mn ≠ 0 → Succeeds f (.plus r g)) :
     ∀ b, ∃ fr, compileRepeat f r mn mx g b = some fr := by
   intro b
   unfold compileRepeat
   split
   · have hr := hr (fun hh => by cases hh)
-    split
-    · exact compileStar_total hS hr b
-    · rename_i hne
+    by_cases hz : mn = 0
+    · unfold compileRepeatMin
+      rw [if_pos hz]
+      exact compileStar_total hS hr b
+    · rw [compileRepeatMin_eq f r g b hz]
       refine compileConcat_total hS (fun r' hr' => ?_) b
       rcases List.mem_append.mp hr' with hm | hm
       · rw [List.eq_of_mem_replicate hm]; exact hr
-      · rw [List.mem_singleton.mp hm]; exact hstar rfl hne
+      · rw [List.mem_singleton.mp hm]; exact hplus rfl hz
   · rename_i m
     split
     · rename_i heq
+      unfold compileRepeatExact
       split
       · exact ⟨_, rfl⟩
       · rename_i hne
@@ -1743,14 +2135,8 @@ theorem compileRepeat_total {f : Rec} {r : Regex} {mn : Nat} {mx : Option Nat} {
           rw [List.eq_of_mem_replicate hr']; exact hr
     · rename_i hne
       have := hle m rfl
-      rw [if_neg (by omega)]
-      refine compileConcat_total hS (fun r' hr' => ?_) b
-      rcases List.mem_append.mp hr' with hm | hm
-      · rw [List.eq_of_mem_replicate hm]
-        refine hr (fun hh => ?_)
-        cases hh
-        intro hz; omega
-      · rw [List.eq_of_mem_replicate hm]; exact hquest m rfl (by omega)
+      exact compileRepeatRange_total hS (by omega) (hr (fun hh => by cases hh; omega)) b
+
 
 theorem depth_pos (re : Regex) : 1 ≤ depth re := by
   cases re with
@@ -1798,8 +2184,7 @@ theorem compile_total : ∀ (fuel : Nat) (re : Regex), Supported re → depth re
     | rep r mn mx g =>
       rw [Supported] at hs
       simp only [compile]
-      refine compileRepeat_total hS hs.1 (fun hc => ih r hs.2 ?_) (fun hn hz => ih _ (by rw [Supported]; exact hs.2) ?_)
-        (fun m hm hlt => ih _ (by rw [Supported]; exact hs.2) ?_) b
+      refine compileRepeat_total hS hs.1 (fun hc => ih r hs.2 ?_) (fun hn hz => ih _ (by rw [Supported]; exact hs.2) ?_) b
       · cases mx with
         | none => simp only [depth] at hd; split at hd <;> omega
         | some m =>
@@ -1812,10 +2197,6 @@ theorem compile_total : ∀ (fuel : Nat) (re : Regex), Supported re → depth re
       · subst hn
         simp only [depth] at hd
         rw [if_neg hz] at hd
-        rw [depth]; omega
-      · subst hm
-        simp only [depth] at hd
-        rw [if_neg (by omega)] at hd
         rw [depth]; omega
     | cat rs =>
       rw [Supported] at hs; rw [depth] at hd
@@ -1971,6 +2352,31 @@ theorem compileAlternate_called {f : Rec} {rs : List Regex} {b : Builder} {fr : 
     · rename_i ss es b1 ha
       exact altSubs_called _ _ _ ha r hr
 
+theorem rangeOptLoop_called {f : Rec} {r : Regex} {g : Bool} {fin d st en : Nat} {b : Builder} {fr : Frag}
+    (hc : rangeOptLoop f r g fin (d + 1) st en b = some fr) : Called f r := by
+  unfold rangeOptLoop at hc
+  cases hf : f r b with
+  | none => simp [hf] at hc
+  | some fr1 => exact ⟨b, fr1, hf⟩
+
+theorem compileRepeatRange_called {f : Rec} {r : Regex} {mn mx : Nat} {g : Bool} {b : Builder} {fr : Frag}
+    (hne : mn ≠ mx) (hc : compileRepeatRange f r mn mx g b = some fr) : Called f r := by
+  unfold compileRepeatRange at hc
+  split at hc
+  · cases hc
+  · rename_i hgt
+    cases hmin : rangeMinLoop f r mn invalid invalid b with
+    | none => simp [hmin] at hc
+    | some m1 =>
+      obtain ⟨st, en, b1⟩ := m1
+      simp only [hmin] at hc
+      cases hl : rangeOptLoop f r g b1.size (mx - mn) st en (b1.push (.eps invalid)) with
+      | none => simp [hl] at hc
+      | some m2 =>
+        obtain ⟨d, hd⟩ : ∃ d, mx - mn = d + 1 := ⟨mx - mn - 1, by omega⟩
+        rw [hd] at hl
+        exact rangeOptLoop_called hl
+
 theorem depthL_le {n : Nat} : ∀ (rs : List Regex), (∀ r, r ∈ rs → depth r ≤ n) → depthL rs ≤ n
   | [], _ => by rw [depthL]; omega
   | a :: rs, hh => by
@@ -2008,11 +2414,12 @@ theorem compile_depth : ∀ (fuel : Nat) (re : Regex) (b : Builder) (fr : Frag),
       | none =>
         simp only [depth]
         simp only [] at hc
-        split at hc
-        · rename_i hz
+        by_cases hz : mn = 0
+        · unfold compileRepeatMin at hc
+          rw [if_pos hz] at hc
           have := ih r (compileStar_called hc); rw [if_pos hz]; omega
-        · rename_i hz
-          have h1 := compileConcat_called hc (Regex.star r g) (List.mem_append.mpr (Or.inr (List.mem_singleton.mpr rfl)))
+        · rw [compileRepeatMin_eq _ _ _ _ hz] at hc
+          have h1 := compileConcat_called hc (Regex.plus r g) (List.mem_append.mpr (Or.inr (List.mem_singleton.mpr rfl)))
           have := ih _ h1
           rw [depth] at this
           rw [if_neg hz]; omega
@@ -2022,6 +2429,7 @@ theorem compile_depth : ∀ (fuel : Nat) (re : Regex) (b : Builder) (fr : Frag),
         split at hc
         · rename_i heq
           rw [if_pos heq]
+          unfold compileRepeatExact at hc
           split at hc
           · rename_i hz; rw [if_pos hz]; omega
           · rename_i hz
@@ -2034,15 +2442,8 @@ theorem compile_depth : ∀ (fuel : Nat) (re : Regex) (b : Builder) (fr : Frag),
               have := ih r h1; omega
         · rename_i hne
           rw [if_neg hne]
-          split at hc
-          · cases hc
-          · rename_i hgt
-            have h1 := compileConcat_called hc (Regex.quest r g) (List.mem_append.mpr (Or.inr (by
-              obtain ⟨k, hk⟩ : ∃ k, m - mn = k + 1 := ⟨m - mn - 1, by omega⟩
-              rw [hk, List.replicate_succ]; exact List.mem_cons_self)))
-            have := ih _ h1
-            rw [depth] at this
-            omega
+          have := ih r (compileRepeatRange_called hne hc)
+          omega
     | cat rs =>
       simp only [compile] at hc
       have := depthL_le rs fun r hr => ih r (compileConcat_called hc r hr)
